@@ -51,7 +51,7 @@ def make(shape, family, seed):
         flat = x.reshape(-1)
         k = max(1, flat.size // 10)
         idx = rng.choice(flat.size, size=k, replace=False)
-        flat[idx] = rng.choice([-1e6, 1e6], size=k)
+        flat[idx] = rng.choice([-1e6, 1e6], size=k) * (1.0 if seed % 3 else 4096.0)  # 1e6, or 4e9: hundreds of millions of scale units away
     elif family == "const_lane":
         x = rng.integers(-160, 161, size=shape) / 16
         if x.ndim == 2:
@@ -208,6 +208,20 @@ def check(case, ctx):
             np.broadcast_to(np.asarray(z.scale), x.shape)
         except ValueError as exc:
             raise Violation("zscore:loc-scale-not-broadcastable", f"{ctxt}: loc {np.asarray(z.loc).shape} scale {np.asarray(z.scale).shape} data {x.shape}") from exc
+    # the scale the z-scores were divided by is the scale estimate itself - the unit-scale fallback is for a ZERO estimate
+    # only, however far an outlier lies from the bulk
+    if method != "doublemad":
+        sk = np.asarray(scale_of(x, axis, keep=True), dtype=np.float64)
+        zsc = np.asarray(zx.scale, dtype=np.float64)
+        try:
+            skb, zscb = np.broadcast_to(sk, x.shape), np.broadcast_to(zsc, x.shape)
+        except ValueError:
+            skb = zscb = None
+        if skb is not None:
+            nz = np.abs(skb) > 1e-6 * (float(np.ptp(x[np.abs(x) < 1e5])) if np.any(np.abs(x) < 1e5) else 1.0) + 1e-7
+            if np.any(nz) and not rel_close(zscb[nz], skb[nz], tol=1e-5):
+                i = tuple(int(v) for v in np.argwhere(nz & ~np.isclose(zscb, skb, rtol=1e-5, atol=0))[0])
+                raise Violation("zscore:scale-replaced-although-nonzero", f"{ctxt}: scale estimate {skb[i]!r} but the z-scores were divided by {zscb[i]!r}")
     # axis consistency of z: lane by lane
     for idx, lane in lanes_of(x, axis):
         zl = np.asarray(z_of(np.ascontiguousarray(lane), 0 if lane.ndim == 1 else None).data)
